@@ -194,6 +194,20 @@ def _implied(fn, cond, truth, term_bb, out, depth=0):
         if k is not None and k.id != j.id and k.op in ("phi", "icmp", "call", "xor"):
             _implied(fn, o2, truth, term_bb, out, depth + 1)
             return
+        # `bool ok = false; if (a) { if (b) { ok = c <= d; } }  if (ok)`: a flag with constant-false stores and exactly one computed store.  The flag
+        # being true means that store ran with a true value: the stored condition and the guards of that store hold (nothing between the store and
+        # the test can have invalidated them more than it could for a nested `if`).
+        if truth and k is not None and k.id == j.id and j["ptr"].get("k") == "inst" and fn.insts[j["ptr"]["id"]].op == "alloca" and not _escapes(fn, fn.insts[j["ptr"]["id"]]):
+            sts = [x for x in fn.all_insts() if x.op == "store" and x["ptr"].get("k") == "inst" and x["ptr"]["id"] == j["ptr"]["id"]]
+            comp = [x for x in sts if const_of(fn, x["val"]) is None]
+            if len(comp) == 1 and all((const_of(fn, x["val"]) & 1) == 0 for x in sts if x is not comp[0]):
+                sv = strip_casts(fn, comp[0]["val"])
+                si = fn.resolve(sv)
+                if si is not None and si.op in ("phi", "icmp", "call", "xor", "load"):
+                    _implied(fn, sv, True, comp[0].bb.id, out, depth + 1)
+                    for (g, t) in branch_conditions(fn, comp[0], depth + 1):
+                        out.append((g, t))
+                    return
     if i is not None and i.op == "phi" and i["ty"] == "i1":
         want = 1 if truth else 0
         alive = []
